@@ -7,7 +7,7 @@ FT = 'plasTeX/TeX.py::'
 FI = 'plasTeX/__init__.py::'
 P.cls('PCClass', fields=dict(_enablelevel='int', enabled='bool'))
 P.global_obj('ParameterCommand', 'PCClass')
-P.cls('Any', universal=True, elem='Any', fields=dict(source='str', catcode='int', nodeType='int', nodeName='str', text='str'))
+P.cls('Any', universal=True, elem='Any', fields=dict(source='str', catcode='int', nodeType='int', nodeName='str', text='str', macroName='str?'))
 P.cls('ParameterCommand', bases=['Any'])
 P.cls('TeX', fields=dict(pos='int', ownerDocument='Any', argtypes='dict[str,Any]', lineInfo='str', context='Any'))
 P.const('Token.CC_BGROUP', 1)
@@ -123,7 +123,10 @@ P.fn('TeX.readSequence', params=dict(self='TeX', chars='opaque', optspace='bool=
      notes='readSequence contains no enable/disable call')
 CALLS = {'self.readOptionalSigns': 'TeX.readOptionalSigns/any', 'self.pushToken': 'TeX.pushToken', 'self.readDecimal': 'TeX.readDecimal',
          'self.readUnitOfMeasure': 'TeX.readUnitOfMeasure/c', 'dimen': 'opaque_fn', 'number': 'opaque_fn', 'int': 'opaque_fn', 'ord': 'opaque_fn',
-         'self.readSequence': 'TeX.readSequence', 'self.itertokens': 'TeX.itertokens'}
+         'self.readSequence': 'TeX.readSequence', 'self.itertokens': 'TeX.itertokens',
+         'self.ownerDocument.createElement': 'Document.createElement'}
+P.fn('Document.createElement', params=dict(self='Any', name='str'), returns='Any', ensures=BAL, allocates=True, modifies=[], trusted=True,
+     notes='creating a macro instance does not touch the parameter switch or the stream')
 P.contracts['TeX.readOptionalSigns/any'].ensures = BAL + ['0 <= self.pos', 'self.pos <= len(XS())']
 P.contracts['TeX.readDecimal'].ensures = BAL + ['0 <= self.pos', 'self.pos <= len(XS())']
 P.contracts['TeX.readKeyword'].ensures = BAL + ['0 <= self.pos', 'self.pos <= len(XS())']
@@ -133,7 +136,7 @@ P.fn(FT + 'TeX.readDimen', name='TeX.readDimen', params=dict(self='TeX', units='
 P.fn(FT + 'TeX.readInteger', name='TeX.readInteger', params=dict(self='TeX', optspace='bool=True'), returns='Any',
      requires=REQ, ensures=BAL, modifies=MODPC + [Mod('pos', 'r is self')], allocates=True, skip_frame=True, calls=CALLS,
      locals={'num': 'Any?'},
-     loops={0: Loop(inv=INSIDE), 1: Loop(inv=INSIDE), 2: Loop(inv=INSIDE)})
+     loops={0: Loop(inv=INSIDE), 1: Loop(inv=INSIDE), 2: Loop(inv=INSIDE), 3: Loop(inv=INSIDE)})
 
 # ---- readArgumentAndSource: every normal return path re-enables what it disabled
 P.fields.update({})
